@@ -80,7 +80,12 @@ def finish(res, tier, seed, t0, meta, level="other", selftest=None, extra_cov=No
             listed.append((o, kf))
         else:
             unlisted.append(o)
-    rep_dir = os.path.join(VERIF, "reports", prop)
+    # the registered outputs (/verif/evidence, /verif/reports) belong to runs on /repo itself; a run on a scratch copy (--root, used by
+    # the self-test and the tools) keeps its files inside that copy, so it can neither overwrite evidence nor race with a run on /repo
+    out_base = VERIF
+    if meta.get("root") and os.path.realpath(meta["root"]) != os.path.realpath(os.environ.get("VERIF_REPO", "/repo")):
+        out_base = os.path.join(os.path.realpath(meta["root"]), ".verif-out")
+    rep_dir = os.path.join(out_base, "reports", prop)
     os.makedirs(rep_dir, exist_ok=True)
     for f in os.listdir(rep_dir):
         try:
@@ -147,8 +152,8 @@ def finish(res, tier, seed, t0, meta, level="other", selftest=None, extra_cov=No
         cov.update(extra_cov)
     ev = {"property_id": prop, "tier": tier, "seed": seed, "level": level, "coverage": cov,
           "assumptions": res.assumptions, "wall_s": round(time.time() - t0, 3), "violations": len(unlisted)}
-    os.makedirs(os.path.join(VERIF, "evidence"), exist_ok=True)
-    with open(os.path.join(VERIF, "evidence", prop + ".json"), "w") as fh:
+    os.makedirs(os.path.join(out_base, "evidence"), exist_ok=True)
+    with open(os.path.join(out_base, "evidence", prop + ".json"), "w") as fh:
         json.dump(ev, fh, indent=1)
     print("%s: %d obligations, %d discharged, %d known finding(s), %d violation(s) [%s, %.1fs]" %
           (prop, n, good, len(listed), len(unlisted), tier, time.time() - t0))
